@@ -112,6 +112,7 @@ def run(model, res, tier):
     res.rule('R2', 'the two converters are inverse, strictly monotone and follow the Excel 1900 system')
     res.rule('R3', 'no cache or shared state in the converters')
     res.rule('R4', 'the comparison operators see exactly serial(operand) for date operands')
+    res.rule('R5', 'the arithmetic operators see exactly serial(operand) for date operands (the operand itself, not a truncated or rebuilt copy)')
     res.assumptions += ['A5 exact rational arithmetic stands in for floating point', 'text dates (dateutil) are outside this rule']
     res.trusted += ['hxsa abstract interpreter with the affine-form domain', 'python datetime for folding the date constants']
     um = None
@@ -123,6 +124,7 @@ def run(model, res, tier):
     _r1(model, res, c, um)
     _r2(model, res, c, um)
     _r4(model, res, c)
+    _r5(model, res, c)
     keys = [(um.name, 'serialize_date'), (um.name, 'parse_date')]
     region = c.cg.reachable(keys)
     purity.check_region(res, c, 'R3', None, region, 'a date converter')
@@ -137,6 +139,8 @@ def _r1(model, res, c, um):
     allowed = cg.reachable([(um.name, 'serialize_date'), (um.name, 'parse_date')])
     n = 0
     for key, (m, f) in sorted(cg.funcs.items()):
+        if key not in c.reach and key not in allowed:
+            continue        # code that no evaluation can reach (a helper left behind by a refactoring) converts nothing
         for node in walk_no_defs(f):
             hit = None
             if isinstance(node, ast.Call):
@@ -243,6 +247,14 @@ def _r2(model, res, c, um):
             res.violation('R2', site_s + ':not-monotone-at-breakpoint', um.where(um.functions['serialize_date']),
                           'the serial is not strictly increasing across the breakpoint t=%s: it reaches %s on the left and starts at %s on the right'
                           % (_dt(iv2.lo), float(sup1), float(inf2)), func='serialize_date')
+    # ---- the phantom 29 February 1900 is the only discontinuity: before 1 March 1900 serial differences are day differences too
+    for iv, v, o in Sv:
+        if iv.lo is not None and T1900 < iv.lo < T_MAR1:
+            res.ob('R2', site_s, {'breakpoint': _dt(iv.lo)}, False, 'a piece of the serial map starts inside January-February 1900')
+            res.violation('R2', site_s + ':breakpoint-before-march-1900', um.where(um.functions['serialize_date']),
+                          'the serial map has a breakpoint at %s: the only discontinuity of the Excel 1900 system is the phantom 29 February '
+                          '(serial 60, i.e. at 1 March 1900 00:00); with another one the difference of two serials in January-February 1900 is '
+                          'not the number of days between the dates (a date-time on that day is off by one)' % _dt(iv.lo), func='serialize_date')
     # ---- Excel 1900 system from 1 March 1900
     for iv, v, o in Sv:
         part = iv.meet(Iv(T_MAR1, True, None, False))
@@ -360,3 +372,51 @@ def _r4(model, res, c):
     for f in tmp.findings:
         res.violation('R4', f.construct, f.where, f.why, case=f.case, func=f.func)
     res.floor('comparison runs with a date operand', n, 30)
+
+
+def _r5(model, res, c):
+    """+ - * / with a date operand: every serial the result is built from is the serial of the operand itself."""
+    from .. import roles
+    from . import c06
+    g = c.grammar
+    acts = roles.binary_actions(g)
+    opaque = H.date_opaque(model)
+    m, f = acts['arith']
+    n = 0
+
+    def serial_args(v, acc):
+        if isinstance(v, Atom):
+            if v.op == 'serial' and len(v.args) == 1:
+                acc.append(v.args[0])
+            for a in v.args:
+                serial_args(a, acc)
+        return acc
+    cases = (('date op number', lambda: Sym('datetime', 'D'), lambda: Sym('int', 'n'), ['D']),
+             ('number op date', lambda: Sym('int', 'n'), lambda: Sym('datetime', 'D'), ['D']),
+             ('date op date', lambda: Sym('datetime', 'D'), lambda: Sym('datetime', 'E'), ['D', 'E']))
+    for op in ('+', '-', '*', '/'):
+        for label, mkl, mkr, names in cases:
+            try:
+                outs = c06._run_arith(model, g, acts, opaque, op, mkl, mkr)
+            except Unmodelled as e:
+                res.ob('R5', 'arithmetic action', {'op': op, 'case': label}, True, 'undecided: %s' % e)
+                continue
+            bad = []
+            seen = set()
+            for o in outs:
+                if o.imprecise or o.kind != 'return':
+                    continue
+                for a in serial_args(o.value, []):
+                    if isinstance(a, Sym) and a.name in names:
+                        seen.add(a.name)
+                    else:
+                        bad.append(a)
+            n += 1
+            ok = not bad
+            res.ob('R5', 'arithmetic action', {'op': op, 'case': label}, ok, 'serials of %s' % (sorted(seen) or bad[:1]))
+            if bad:
+                res.violation('R5', 'arith:date-operand-serial', m.where(f),
+                              '%s with %s: the result is computed from serial(%r), not from the serial of the date operand itself - the time of '
+                              'day (or another part of the operand) is lost before the arithmetic, so date +/- number and N/DAYS/comparisons no '
+                              'longer see the same serial' % (label, op, bad[0]), case={'op': op, 'case': label}, func=f.name)
+    res.soft_floor('arithmetic runs with a date operand', n, 8)
